@@ -95,6 +95,11 @@ class Recognizer(IRecognizer):
         if not isinstance(node, yaml.SequenceNode):
             message = '{}\nExpected a list'.format(node.start_mark)
             return set(), (message, [])
+        if node.tag != 'tag:yaml.org,2002:seq':
+            # an explicit tag says that this is something else
+            message = '{}\nExpected a list, but found a tag {} here'.format(
+                    node.start_mark, node.tag)
+            return set(), (message, [])
         item_type = generic_type_args(expected_type)[0]
         for item in node.value:
             recognized_types, result = self.recognize(item, item_type)
@@ -132,6 +137,11 @@ class Recognizer(IRecognizer):
         if not isinstance(node, yaml.MappingNode):
             message = '{}\nExpected a dict/mapping here'.format(
                 node.start_mark)
+            return set(), (message, [])
+        if node.tag != 'tag:yaml.org,2002:map':
+            # an explicit tag says that this is something else
+            message = ('{}\nExpected a dict/mapping, but found a tag {}'
+                       ' here').format(node.start_mark, node.tag)
             return set(), (message, [])
 
         value_type = generic_type_args(expected_type)[1]
